@@ -91,10 +91,12 @@ def repeatability_conformance():
 
 def run():
     work = Work("extras")
+    import dataelement
     import dispatch
     import evalcheck
     hints = evalcheck.hint_wording_conformance(work)
-    out = {"hint_wording": hints, "provider": provider_conformance(work), "repeatability": repeatability_conformance(), "dispatch": dispatch.conformance(work)}
+    out = {"hint_wording": hints, "provider": provider_conformance(work), "repeatability": repeatability_conformance(), "dispatch": dispatch.conformance(work),
+           "data_element": dataelement.conformance(work)}
     work.cleanup()
     (VERIF / "evidence" / "extras.json").write_text(json.dumps(out, indent=1) + "\n")
     for k, v in out["provider"]["deviations"].items():
@@ -107,10 +109,16 @@ def run():
     for d in out["hint_wording"]["deviations"]:
         print(f"OBSERVATION hint wording: {d}")
     print(f"extras: hint wording {out['hint_wording']['agree']}/{out['hint_wording']['evaluations']} evaluations agree ({out['hint_wording']['states']} states)")
+    de = out["data_element"]
+    for d in de["deviations"][:5]:
+        print(f"OBSERVATION data element: {d['what']}: {d['case']}")
+    print(f"extras: data element {de['agree']}/{de['elements_replayed']} elements agree with DataElement.tla ({de['machine_states']} + {de['generator_states']} states; "
+          f"{de['not_renderable']} not renderable; actions never taken: {de['actions_never_taken']})")
     bad_declared = out["provider"]["deviations"].get("all instances declare format and version")
     # get_evaluation_method of the mapping based evaluators is a known deviation from its documentation (DESIGN 12.5a); anything else fails
     bad_dispatch = [k for k in out["dispatch"]["deviations"] if not (k.endswith("/get_method") and k.split("/")[1] in ("dict", "cer"))]
-    return 1 if (bad_declared or out["repeatability"]["deviations"] or bad_dispatch or out["hint_wording"]["deviations"]) else 0
+    return 1 if (bad_declared or out["repeatability"]["deviations"] or bad_dispatch or out["hint_wording"]["deviations"] or de["deviation_count"] or de["actions_never_taken"]
+                 or de["elements_replayed"] == 0) else 0
 
 
 if __name__ == "__main__":
